@@ -112,6 +112,13 @@ class Stateful(Stateless):
         self._model = json.loads(state.decode())
 
 
+class Mute(Stateless):
+    """An actor whose output is the payload None (a perfectly legal value on an edge: the flow layer is payload-agnostic)."""
+
+    def apply(self, *xs):
+        return None
+
+
 class Source(Stateless):
     """Head of a table: ignores whatever the runner feeds it (pyfunc passes the request entry, dask nothing)."""
 
